@@ -33,15 +33,15 @@ type solverSpec struct {
 }
 
 var solvers = map[string]solverSpec{
-	"z3-new": {"z3-new", func(f string, sec int) []string { return []string{fmt.Sprintf("-T:%d", sec), f} }},
-	"z3":     {"z3", func(f string, sec int) []string { return []string{fmt.Sprintf("-T:%d", sec), f} }},
+	"z3-new": {"z3-new", func(f string, sec int) []string { return []string{fmt.Sprintf("-t:%d", sec*1000), fmt.Sprintf("-T:%d", sec+3), f} }},
+	"z3":     {"z3", func(f string, sec int) []string { return []string{fmt.Sprintf("-t:%d", sec*1000), fmt.Sprintf("-T:%d", sec+3), f} }},
 	"cvc5":   {"cvc5", func(f string, sec int) []string { return []string{fmt.Sprintf("--tlimit=%d", sec*1000), f} }},
 }
 
 func runSolver(ctx context.Context, name, file string, sec int) (verdict string, out string, dur float64) {
 	sp := solvers[name]
 	start := time.Now()
-	cctx, cancel := context.WithTimeout(ctx, time.Duration(sec+2)*time.Second)
+	cctx, cancel := context.WithTimeout(ctx, time.Duration(sec+5)*time.Second)
 	defer cancel()
 	cmd := exec.CommandContext(cctx, sp.name, sp.args(file, sec)...)
 	var buf bytes.Buffer
@@ -119,6 +119,11 @@ func solveOne(o *Oblig, t *Trans, opt SolveOpts) *Result {
 		}
 		if v == "error" {
 			r.Raw = out
+		}
+		if v == "unknown" && strings.Contains(out, "((") {
+			// candidate model of the ground part plus the quantifier instances made so far
+			r.Model = out
+			r.Candidate = true
 		}
 		return false
 	}
